@@ -14,7 +14,7 @@ from . import c10
 ID = "C11"
 LEVEL = "model_checking"
 RULE = ("the circuit space of C10 (every topology of the listed levels x kinds {R,C,L,V,I} with 1..3 reactive elements and "
-        "1..2 sources x orientation x id scheme, positive values, prime and decades palettes), judged when non-degenerate "
+        "1..2 sources x orientation x id scheme, positive values, prime and decades palettes; plus ladders with up to 6 (thorough 8) states), judged when non-degenerate "
         "(exact); for each the state matrix is tested for W*A + A^T*W <= 0 with W = diag(C..., L...) and for eigenvalues in the "
         "closed left half plane; for every non-degenerate class of the small levels the real TransientSolution is run for each "
         "pulse shape {step up/down as one-sample ramps, ramp, triangle} on each source and the stored energy computed from "
@@ -45,6 +45,8 @@ def shards(tier):
         for ti in range(len(topos)):
             for ch in sp.chunks(range(len(allk)), per):
                 out.append(("A-matrix RLC(%d,%d)|ids:%s" % (n, b, mode), ("A", n, b, ti, ch[0], ch[-1] + 1, mode, pals)))
+    for li in range(len(dyn.LADDERS)):
+        out.append(("ladders: A-matrix and energy (up to %d states)" % (6 if tier == "quick" else 8), ("LAD", li, 3 if tier == "quick" else 4)))
     for (n, b) in (SIM_LEVELS_QUICK if tier == "quick" else SIM_LEVELS_THOROUGH):
         topos = sp.topologies(n, b)
         allk = [kt for kt in itertools.product(dyn.DK, repeat=b) if dyn.admissible(kt)]
@@ -56,6 +58,21 @@ def shards(tier):
 
 def run_shard(desc):
     res = new_result()
+    if desc[0] == "LAD":
+        src, ser, shu = dyn.LADDERS[desc[1]]
+        for nsec in range(1, desc[2] + 1):
+            for scheme in ("asc", "desc", "mix"):
+                for flip in (False, True):
+                    d = dyn.ladder(src, ser, shu, nsec, scheme, flip, nsec % 2)
+                    res["evals"] += 1
+                    ok, why = rd.non_degenerate(d)
+                    if not ok:
+                        bump(res["skipped"], why)
+                        continue
+                    judge_matrix(d, res)
+                    if scheme != "asc":
+                        judge_energy(d, PULSES[nsec % len(PULSES)], res)
+        return res
     if desc[0] == "A":
         _, n, b, ti, k0, k1, mode, pals = desc
         topo = sp.topologies(n, b)[ti]
